@@ -33,7 +33,8 @@ EXPLANATION = (
     "elements of lists into whose links some writer stores NULL (discovered: the USE and REFERENCE schema lists) are not "
     "dereferenced untested in any tool-reachable traversal, and in the front end no local that receives the result of a "
     "function that may return NULL (least fixed point over `return`) is dereferenced while it may still be NULL. (E2t) every strncpy into a fixed char array with a constant size is followed, on every path to the next use of the array, by a store of 0 at an index not above that size - or cannot need one (literal source shorter than the size; zero-initialised storage whose tail is never written; a constructor-established terminator beyond the size; identifier sources under the identifier-length assumption). Not decided: heap-block destinations beyond two idioms (listed as heap_not_decided), parser "
-    "stack growth, generated lexer internals, hash.c internals, bounded time, signed overflow.")
+    "stack growth, generated lexer internals, hash.c internals, bounded time, signed overflow."
+    " (R2, inter-procedural) a pointer handed to a callee that keeps it - least fixed point over the call graph of: the parameter is assigned to a global, a member or an array element that outlives the call, or passed on to such a parameter - is not freed while that location can still hold it (a self-test subject under scv/selftest/c06 keeps the rule exercised: it has no instance on the unchanged tree). (R6N) a local pointer is not dereferenced where every definition that reaches the dereference is the null constant (variables whose address is taken are not decided).")
 
 ENTRIES = ["main", "EXPRESSparse", "EXPRESSresolve", "print_file", "EXPRESSinit_init"]
 IDENT = {
@@ -515,6 +516,59 @@ def r6_lookup_results(prog, res, reachable, nn, rule="R6.lookup_result_tested", 
     res.floor(rule, "locals that receive a possibly-NULL lookup result in the front end", n, floor)
 
 
+def r6_null_initialised(prog, res, reachable, nn, rule="R6.null_initialised_local", components=("express",), floor=8):
+    """A local pointer that is set to the null constant (at its declaration or later) is not dereferenced on a path on which nothing
+    has been assigned to it since: `Function f = 0;` assigned in one arm of a switch and used in another arm (EXP_resolve: the
+    diagnostic for `y := f;`, f a function with parameters, read f->u.func->pcount through the null f)."""
+    from engines import is_null_const
+    n = 0
+    counters = {}
+    for f in prog.all_functions():
+        if f.component not in components or f.cfg is None or f.key not in reachable:
+            continue
+        for x in f.walk():
+            d = name = None
+            if x["k"] == "Var" and x.get("ch") and x["ch"][0] is not None and is_null_const(x["ch"][0]) and "*" in f.ty(x):
+                d, name = x["d"], x["n"]
+            elif x["k"] == "Assign" and x.get("op", "=") == "=":
+                lhs = strip(x["ch"][0])
+                if lhs is not None and lhs["k"] == "Ref" and lhs.get("dk") == "local" and "*" in f.ty(lhs) and is_null_const(x["ch"][1]):
+                    d, name = lhs["d"], lhs["n"]
+            if d is None:
+                continue
+            pos = f.cfg.locate(x)
+            if pos is None:
+                continue
+            # a variable whose address is taken may be assigned through the pointer (out-parameters): not decided
+            if any(y["k"] == "Unary" and y.get("op") == "&" and strip(y["ch"][0]) is not None and strip(y["ch"][0]).get("d") == d for y in f.walk()):
+                continue
+            n += 1
+            hits = [h for h in nn.explore(f, d, pos) if h[1] != "return"]
+            # exact part only: the dereference is reached by no definition of the variable other than a null constant (a loop that may
+            # or may not have assigned it - guarded by a counter the walk does not correlate - is left alone)
+            defs = []
+            for y in f.walk():
+                if y["k"] == "Assign" and strip(y["ch"][0]) is not None and strip(y["ch"][0])["k"] == "Ref" and strip(y["ch"][0]).get("d") == d:
+                    defs.append((y, y.get("op", "=") == "=" and is_null_const(y["ch"][1])))
+                elif y["k"] in ("CompoundAssign", "Unary") and y.get("ch") and strip(y["ch"][0]) is not None and strip(y["ch"][0]).get("d") == d and \
+                        (y["k"] == "CompoundAssign" or "++" in (y.get("op") or "") or "--" in (y.get("op") or "")):
+                    defs.append((y, False))
+            def_ids = {y["i"] for y, _ in defs}
+
+            def is_def(nd):
+                return any(z["i"] in def_ids for z in walk(nd))
+            hits = [h for h in hits if not any(not isnull and f.cfg.reaches(f.cfg.locate(y), f.cfg.locate(h[0]), is_stop=is_def)
+                                               for y, isnull in defs)]
+            base = "R6N|%s|%s|%s" % (f.relfile(), f.name, name)
+            c0 = counters.get(base, 0)
+            counters[base] = c0 + 1
+            key = base if c0 == 0 else "%s#%d" % (base, c0)
+            res.add(rule, key, f.where(hits[0][0]) if hits else f.where(x), not hits,
+                    "`%s` is assigned or tested before every dereference that can follow its `= NULL` at line %s" % (name, x["l"]) if not hits else
+                    "`%s` is set to NULL at line %s, no other assignment can reach line %s, and there %s" % (name, x["l"], hits[0][0]["l"], hits[0][1]))
+    res.floor(rule, "locals set to the null constant in the front end", n, floor)
+
+
 def selftest(res):
     import selftest as st
     import report
@@ -540,6 +594,7 @@ def run(prog, res, tier):
     nn = Nullness(prog)
     r6_nullable_elements(prog, res, reachable, nn)
     r6_lookup_results(prog, res, reachable, nn)
+    r6_null_initialised(prog, res, reachable, nn, components=("express", "exppp", "exp2cxx", "exp2python"))
     nt = memsafe.run_strncpy_terminated(prog, res, CFG, reachable)
     res.floor("E2t.strncpy_terminated", "strncpy calls into fixed arrays with a constant size", nt, 20)
     # L* (identifier length for which every assumption-discharged write is safe) must not shrink
